@@ -409,18 +409,33 @@ func r014(c *Ctx, r *R) {
 		if f == nil {
 			continue
 		}
-		ok := true
-		cnt := 0
-		for _, lf := range returnLeaves(f, 0) {
-			cnt++
-			if call, _ := originCall(lf.Val); call != nil && nameMatches(callName(call.Common()), "raft.Consensus).commit") {
-				continue
+		// (directly, or through a helper shared by the two that does)
+		var returnsCommit func(g *ssa.Function, depth int) bool
+		returnsCommit = func(g *ssa.Function, depth int) bool {
+			if g == nil || len(g.Blocks) == 0 || depth > 2 {
+				return false
 			}
-			if isNilConst(lf.Val) && lf.GuardedBy(func(g Guard) bool { return gCallErrNil(g, "raft.Consensus).commit") }) {
-				continue
+			n := 0
+			for _, lf := range returnLeaves(g, g.Signature.Results().Len()-1) {
+				n++
+				call, _ := originCall(lf.Val)
+				if call != nil && nameMatches(callName(call.Common()), "raft.Consensus).commit") {
+					continue
+				}
+				if isNilConst(lf.Val) && lf.GuardedBy(func(gd Guard) bool { return gCallErrNil(gd, "raft.Consensus).commit") }) {
+					continue
+				}
+				if call != nil {
+					if h := call.Common().StaticCallee(); h != nil && h.Pkg == g.Pkg && h != g && returnsCommit(h, depth+1) {
+						continue
+					}
+				}
+				return false
 			}
-			ok = false
+			return n > 0
 		}
+		ok := returnsCommit(f, 0)
+		cnt := 1
 		r.Check(ok && cnt > 0, n+":returns-commit", f.Pos(), n+" returns nil only when commit returned nil", n+" can return nil although commit failed")
 		// the op carries the pin and the right type
 		for _, ci := range findCalls(f, false, "raft.Consensus).op") {
